@@ -88,7 +88,7 @@ Inductive tstep (s : sys) : label -> sys -> Prop :=
   | TSetCap sid n st : live s sid st ->
       tstep s (LSetCap sid n) (set_chan s (s_ch st) (grow n (chan_at s (s_ch st))))
   | TDropStartRule sid st r : live s sid st -> s_rule st = Some r ->
-      tstep s (LDropStart sid) (with_drops s (put (drops s) sid R0))
+      tstep s (LDropStart sid) (with_tasks (bury s sid st) (tasks s ++ [(r, R0)]))
   | TDropStartNone sid st : live s sid st -> s_rule st = None -> tstep s (LDropStart sid) (bury s sid st)
   | TDropSubsDone sid st r s1 : lookup (streams s) sid = Some st -> lookup (drops s) sid = Some R0 -> subs_busy s = false ->
       s_rule st = Some r -> rm_apply s r = (s1, None) ->
